@@ -9,6 +9,7 @@ import Schc.Properties.C08
 import Schc.Properties.C09
 import Schc.Properties.C10
 import Schc.Properties.C11
+import Schc.Properties.C12
 import Schc.Properties.C14
 import Schc.Properties.C15
 import Schc.Properties.C16
